@@ -287,6 +287,18 @@ class Interp:
                 return m(self, e, env)
             if e['name'] in ('std::nullopt', 'nullopt'):
                 return None
+            if e.get('global'):
+                # a constant of the program (`constexpr` / `const` at namespace scope): its compile-time value, or its initialiser
+                # evaluated once
+                gls = [gl for (nm, fl, ln), gl in self.p.facts.globals.items() if nm == e['name'] and gl.get('const') and not gl.get('tls')]
+                if len(gls) == 1:
+                    if isinstance(gls[0].get('cv'), int):
+                        return gls[0]['cv']
+                    if SX.is_node(gls[0].get('init')):
+                        cache = self.__dict__.setdefault('_gconst', {})
+                        if e['name'] not in cache:
+                            cache[e['name']] = self.expr(gls[0]['init'], {})
+                        return cache[e['name']]
             raise Unsupported('unbound variable ' + e['name'])
         if k == 'member':
             b = self.expr(e['base'], env)
@@ -316,6 +328,8 @@ class Interp:
                 if isinstance(v, Ptr):
                     return self.expr(v.e, v.env)
                 return v
+            if op == '&' and '::*' in (e.get('t') or '') and SX.is_node(SX.strip(e['e'])) and SX.strip(e['e']).get('k') == 'ref':
+                return ('memptr', SX.strip(e['e'])['name'].split('::')[-1])     # pointer to data member `&S::f`
             if op == '&':
                 # address of an object or of a container element: the object itself (structs have reference semantics here)
                 v = self.expr(e['e'], env)
@@ -336,7 +350,15 @@ class Interp:
             if op == '||':
                 return self.truth(self.expr(e['l'], env)) or self.truth(self.expr(e['r'], env))
             a, b = self.expr(e['l'], env), self.expr(e['r'], env)
+            if op in ('.*', '->*'):
+                if isinstance(a, Ptr):
+                    a = self.expr(a.e, a.env)
+                if isinstance(a, Obj) and isinstance(b, tuple) and len(b) == 2 and b[0] == 'memptr' and b[1] in a:
+                    return a[b[1]]
+                raise Unsupported('member access through ' + SX.show(e['r']))
             return self.binop(op, a, b)
+        if k == 'sizeof' and isinstance(e.get('v'), int):
+            return e['v']
         if k == 'cond':
             return self.expr(e['t'], env) if self.truth(self.expr(e['c'], env)) else self.expr(e['f'], env)
         if k == 'assign':
@@ -505,7 +527,7 @@ class Interp:
                     return {}
             raise Unsupported('construct ' + e['type'])
         if k == 'initlist':
-            rec = self.p.facts.records.get(e['type'])
+            rec = self.p.facts.records.get(e['type']) or self.p.facts.records.get((e.get('type') or '').replace('const ', '').strip())
             if rec is None and e.get('type') in ('void', '<dependent type>') and len(e.get('items', [])) > 1:
                 # a braced return value inside a generic lambda (`-> Value { return {Value::Type::Int, …}; }`): the target type is
                 # not recorded on the node; it is the one record whose leading field has the type of the leading item
@@ -759,6 +781,14 @@ class Interp:
             if isinstance(b, Obj):
                 b[l['name']] = v
                 self.effects.append(('store', l['name'], v))
+                return
+        if l['k'] == 'bin' and l.get('op') in ('.*', '->*'):
+            a, b = self.expr(l['l'], env), self.expr(l['r'], env)
+            if isinstance(a, Ptr):
+                a = self.expr(a.e, a.env)
+            if isinstance(a, Obj) and isinstance(b, tuple) and len(b) == 2 and b[0] == 'memptr':
+                a[b[1]] = v
+                self.effects.append(('store', b[1], v))
                 return
         if l['k'] == 'un' and l.get('op') == '*':
             p_ = self.expr(l['e'], env)
